@@ -567,25 +567,48 @@ class _Norm(ast.NodeTransformer):
         return out
 
     def _n25(self, out):
-        """N25: `if c: x = A else: x = B` followed by the one statement that reads x (nothing else in the function does), with A and B plain
-        access paths, is that statement in both arms with A resp. B in x's place (the common suffix `x.f().g` un-factored)."""
+        """N25: an if/else (possibly nested, other statements allowed in the arms) whose every arm ENDS by assigning the same local x, followed by
+        the one statement that reads x (nothing else in the function does), is that statement at the end of every arm with the arm's value in x's
+        place - the common suffix un-factored:  if c: x = A else: x = B; y = x.f()   ==   if c: y = A.f() else: y = B.f().
+        Sound when nothing with an effect is evaluated in the statement before x: the values are plain paths, or the statement is
+        `<name>.<method>(x)`, `t = x` or `return x`."""
         fn = self.fn_stack[-1]
+
+        def leaves(stmts):
+            """the final assignment `x = V` of every arm, or None"""
+            if not stmts:
+                return None
+            last = stmts[-1]
+            if isinstance(last, ast.Assign) and len(last.targets) == 1 and isinstance(last.targets[0], ast.Name):
+                return [(stmts, last)]
+            if isinstance(last, ast.If) and last.orelse:
+                l1, l2 = leaves(last.body), leaves(last.orelse)
+                if l1 is None or l2 is None:
+                    return None
+                return l1 + l2
+            return None
         res = []
         i = 0
         while i < len(out):
             a = out[i]
             b = out[i + 1] if i + 1 < len(out) else None
-            if isinstance(a, ast.If) and len(a.body) == 1 and len(a.orelse) == 1 and isinstance(b, (ast.Assign, ast.Expr, ast.Return)) \
-                    and all(isinstance(x, ast.Assign) and len(x.targets) == 1 and isinstance(x.targets[0], ast.Name) and _plain_chain(x.value)
-                            for x in (a.body[0], a.orelse[0])) and a.body[0].targets[0].id == a.orelse[0].targets[0].id:
-                name = a.body[0].targets[0].id
+            lv = leaves([a]) if isinstance(a, ast.If) and isinstance(b, (ast.Assign, ast.Expr, ast.Return)) else None
+            if lv and len({l.targets[0].id for _, l in lv}) == 1 and len(lv) >= 2:
+                name = lv[0][1].targets[0].id
                 loads, stores = _count_names(fn, name)
                 reads_in_b = [n for n in ast.walk(b) if isinstance(n, ast.Name) and n.id == name and isinstance(n.ctx, ast.Load)]
                 stores_in_b = [n for n in ast.walk(b) if isinstance(n, ast.Name) and n.id == name and isinstance(n.ctx, ast.Store)]
-                if loads == 1 and stores == 2 and len(reads_in_b) == 1 and not stores_in_b \
+                plain_vals = all(_plain_chain(l.value) for _, l in lv)
+                x_first = (isinstance(b, ast.Expr) and isinstance(b.value, ast.Call) and isinstance(b.value.func, ast.Attribute) and isinstance(b.value.func.value, ast.Name)
+                           and len(b.value.args) == 1 and not b.value.keywords and isinstance(b.value.args[0], ast.Name) and b.value.args[0].id == name) \
+                    or (isinstance(b, (ast.Assign, ast.Return)) and isinstance(b.value, ast.Name) and b.value.id == name)
+                if loads == 1 and stores == len(lv) and len(reads_in_b) == 1 and not stores_in_b and (plain_vals or x_first) \
                         and not any(isinstance(n, (ast.Lambda, ast.ListComp, ast.GeneratorExp, ast.SetComp, ast.DictComp)) for n in ast.walk(b)):
                     def put(val):
                         c = copy.deepcopy(b)
+                        if isinstance(c, (ast.Assign, ast.Return)) and isinstance(c.value, ast.Name) and c.value.id == name:
+                            c.value = copy.deepcopy(val)
+                            return c
                         for parent in ast.walk(c):
                             for fld, v in ast.iter_fields(parent):
                                 if isinstance(v, ast.Name) and v.id == name and isinstance(v.ctx, ast.Load):
@@ -595,7 +618,9 @@ class _Norm(ast.NodeTransformer):
                                         if isinstance(x, ast.Name) and x.id == name and isinstance(x.ctx, ast.Load):
                                             v[k] = copy.deepcopy(val)
                         return c
-                    res.append(ast.copy_location(ast.If(test=a.test, body=[put(a.body[0].value)], orelse=[put(a.orelse[0].value)]), a))
+                    for stmts, last in lv:
+                        stmts[-1] = ast.copy_location(put(last.value), last)
+                    res.append(a)
                     i += 2
                     continue
             res.append(a)
